@@ -294,6 +294,128 @@ theorem maintenance_noop_equal (s : PosPQ) (draw : Nat → Rat) (c : Rat)
           simp [candidate, this, hlo]
       simp [hany]
 
+/-! ## 3b. A long-waiting entry that is the only regular entry is retried, not skipped
+
+The defect `boost:straggler-late:lone-regular-at-every-maintenance`: under the load
+`popleft; insert(0, x); append_pri(y, 0); popleft` the throughput test first becomes true at the
+`insert(0, x)`, when the straggler is the only regular entry; `do_maintenance` then has nothing to
+compare it with.  Before the repair `last_maintenance` was advanced all the same and every later
+round repeated this.  Now `do_maintenance()` reports such a round as not done and the mark stays. -/
+
+theorem regularMinMax_isSome (l : List (Entry PV)) (e : Entry PV) (he : e ∈ l) (hc : e.pri.cls ≠ 0) :
+    ∃ lo hi, regularMinMax l = some (lo, hi) := by
+  induction l with
+  | nil => simp at he
+  | cons a l ih =>
+    simp only [regularMinMax]
+    by_cases ha : a.pri.cls = 0
+    · have : e ∈ l := by
+        rcases List.mem_cons.mp he with rfl | h
+        · exact absurd ha hc
+        · exact h
+      simpa [ha] using ih this
+    · simp only [beq_iff_eq, ha, if_false]
+      cases regularMinMax l with
+      | none => exact ⟨_, _, rfl⟩
+      | some p => exact ⟨_, _, rfl⟩
+
+/-- **`lone_straggler_retried`** — `update_counters(True)` in a state where the throughput test fires
+    while exactly one regular entry is queued and that entry is long-waiting (any number of positional
+    entries, any history, boosting enabled):
+    1. the maintenance mark is *not* advanced (counters otherwise as always);
+    2. so the throughput test is still satisfied in the resulting state — maintenance is due again at
+       the next insertion, not a full period later;
+    3. when the next insertion is a regular `append_pri` and the test holds for the longer queue (it does
+       whenever the queue is shorter than 10, the finding's case), maintenance runs in it, is recorded
+       (`last_maintenance` advances), its queue is the model's `doMaintenance` of the queue with the new
+       entry, and its candidate window is the same as in the skipped round: whatever was long-waiting
+       then is long-waiting now. -/
+theorem lone_straggler_retried (hl : H.Lawful (Entry.lt PV.lt)) (draw : Nat → Rat) (s : PosPQ)
+    (hf : s.factor ≠ 0)
+    (hfire : min (s.nIns + 1) s.nRem > max 10 s.len + s.lastMaint)
+    (hone : s.q.pq.countP (fun e => e.pri.cls != 0) = 1)
+    (e : Entry PV) (he : e ∈ s.q.pq) (hreg : e.pri.cls ≠ 0) (hold : e.pri.insertedAt < s.nIns + 1 - s.len) :
+    let s' := updateCounters H s true draw
+    (s'.lastMaint = s.lastMaint ∧ s'.nIns = s.nIns + 1 ∧ s'.nRem = s.nRem ∧ s'.len = s.len ∧
+      s'.q = (doMaintenance H { s with nIns := s.nIns + 1 } draw).q) ∧
+    min s'.nIns s'.nRem > max 10 s'.len + s'.lastMaint ∧
+    (s.len < 10 → min (s.nIns + 2) s.nRem > max 10 (s.len + 1) + s.lastMaint) ∧
+    ∀ x p, min (s.nIns + 2) s.nRem > max 10 (s.len + 1) + s.lastMaint →
+      (s'.appendPri H x p draw).lastMaint = min (s.nIns + 2) s.nRem ∧
+      (s'.appendPri H x p draw).q =
+        (doMaintenance H { s' with q := s'.q.add H PV.lt { base := p, insertedAt := s'.nIns } x,
+                                    nIns := s'.nIns + 1 } draw).q ∧
+      (s'.appendPri H x p draw).nIns - (s'.appendPri H x p draw).len = s.nIns + 1 - s.len := by
+  intro s'
+  have hnd : maintenanceDone { s with nIns := s.nIns + 1 } = false := by
+    have hany : s.q.pq.any (isStraggler (s.nIns + 1 - s.len)) = true :=
+      List.any_eq_true.mpr ⟨e, he, by simp [isStraggler, hreg, hold]⟩
+    have hf' : (s.factor == 0) = false := by simpa using hf
+    simp [maintenanceDone, PosPQ.len, hf', hone] at hany ⊢
+    exact hany
+  have hspec := updateCounters_true_spec hl s draw
+  have hlm : s'.lastMaint = s.lastMaint := by
+    rcases hspec.2.2.2 with ⟨_, h⟩ | ⟨hn, _⟩
+    · simpa [hnd] using h
+    · exact absurd hfire hn
+  have hq : s'.q = (doMaintenance H { s with nIns := s.nIns + 1 } draw).q := by
+    show (updateCounters H s true draw).q = _
+    simp only [updateCounters, if_true, PosPQ.len] at hfire ⊢
+    simp only [PosPQ.len, hfire, if_true, hnd, Bool.false_eq_true, if_false]
+  have hfire' : min s'.nIns s'.nRem > max 10 s'.len + s'.lastMaint := by
+    rw [hspec.2.1, hspec.2.2.1, hspec.1, hlm]; exact hfire
+  refine ⟨⟨hlm, hspec.2.1, hspec.2.2.1, hspec.1, hq⟩, hfire', ?_, ?_⟩
+  · intro hlen
+    have h1 : max 10 s.len = 10 := by omega
+    have h2 : max 10 (s.len + 1) = 10 := by omega
+    rw [h1] at hfire; rw [h2]; omega
+  · intro x p hnext
+    have ha := appendPri_counters hl draw s' x p
+    rw [hspec.2.1, hspec.2.2.1, hspec.1, hlm] at ha
+    have hlast : (s'.appendPri H x p draw).lastMaint = min (s.nIns + 2) s.nRem := by
+      rcases ha.2.2.2 with ⟨_, h⟩ | ⟨hn, _⟩
+      · exact h
+      · exact absurd hnext hn
+    refine ⟨hlast, ?_, ?_⟩
+    · have hlen' : s'.q.pq.length = s.q.pq.length := hspec.1
+      have hadd : (s'.q.add H PV.lt { base := p, insertedAt := s'.nIns } x).pq.length = s.q.pq.length + 1 := by
+        simp only [PQ.add]; rw [(hl.push_perm _ _).length_eq]; simp [hlen']
+      have hdone := maintenanceDone_after_add hl s' x { base := p, insertedAt := s'.nIns } (by simp) rfl
+      have hn' : min (s'.nIns + 1) s'.nRem > max 10 (s.q.pq.length + 1) + s'.lastMaint := by
+        rw [hspec.2.1, hspec.2.2.1, hlm]; exact hnext
+      simp only [appendPri, updateCounters, if_true, PosPQ.len, hadd]
+      simp only [hn', if_true, hdone]
+    · rw [ha.2.1, ha.1]; omega
+
+/-- … and in that next round the lone straggler is a boost candidate as soon as the entry that
+    arrived is more urgent than the straggler's base priority; with `boost_overtakes` it then ends up
+    below `min_pri` whenever `draw · factor > 1`. -/
+theorem lone_straggler_candidate_next (hl : H.Lawful (Entry.lt PV.lt)) (s' : PosPQ) (x : Nat) (p : Rat)
+    (e : Entry PV) (he : e ∈ s'.q.pq) (hreg : e.pri.cls ≠ 0)
+    (hold : e.pri.insertedAt < s'.nIns + 1 - (s'.len + 1)) (hp : p < e.pri.base) :
+    ∃ minPri hi,
+      regularMinMax (s'.q.add H PV.lt { base := p, insertedAt := s'.nIns } x).pq = some (minPri, hi) ∧
+      e ∈ (s'.q.add H PV.lt { base := p, insertedAt := s'.nIns } x).pq ∧
+      candidate minPri (s'.nIns + 1 - (s'.len + 1)) e = true ∧
+      ∀ draw : Nat → Rat, 1 < draw e.seq * s'.factor →
+        (boostOne s'.factor minPri (s'.nIns + 1 - (s'.len + 1)) draw e).pri.priority < minPri := by
+  have hperm : (s'.q.add H PV.lt { base := p, insertedAt := s'.nIns } x).pq.Perm
+      (⟨{ base := p, insertedAt := s'.nIns }, s'.q.seq, x⟩ :: s'.q.pq) := by
+    simp only [PQ.add]; exact hl.push_perm _ _
+  have hnew : (⟨{ base := p, insertedAt := s'.nIns }, s'.q.seq, x⟩ : Entry PV) ∈
+      (s'.q.add H PV.lt { base := p, insertedAt := s'.nIns } x).pq := hperm.symm.subset (by simp)
+  have he' : e ∈ (s'.q.add H PV.lt { base := p, insertedAt := s'.nIns } x).pq :=
+    hperm.symm.subset (List.mem_cons_of_mem _ he)
+  obtain ⟨lo, hi, hm⟩ := regularMinMax_isSome _ e he' hreg
+  have hspec := regularMinMax_spec _ lo hi hm
+  have hlo : lo ≤ p := by
+    have := hspec.1 _ hnew (by simp)
+    simpa [PV.priority, Rat.add_zero] using this
+  have hc : candidate lo (s'.nIns + 1 - (s'.len + 1)) e = true := by
+    simp only [candidate, Bool.and_eq_true, bne_iff_ne, ne_eq, decide_eq_true_eq]
+    exact ⟨⟨hreg, hold⟩, by grind⟩
+  exact ⟨lo, hi, hm, he', hc, fun draw hr => boost_overtakes _ _ _ draw e hc hr⟩
+
 /-! ## 4. Boosting never damages the container -/
 
 /-- one operation with boosting at any factor and any draws: some reference list is still refined
@@ -373,5 +495,37 @@ example : candidate 0 5 ⟨{ base := 1, insertedAt := 2 }, 7, 42⟩ = true ∧
   constructor
   · decide
   · grind
+
+/-- the state of the finding `boost:straggler-late:lone-regular-at-every-maintenance` at the moment
+    `insert(0, x)` calls `update_counters(True)`: a positional entry and the straggler (priority 5,
+    inserted at 0), 20 insertions and 20 removals so far, no maintenance yet.  It meets the hypotheses
+    of `lone_straggler_retried` … -/
+def findingState : PosPQ :=
+  { q := ⟨22, [⟨{ base := 0, insertedAt := 20, cls := 0 }, 21, 7⟩, ⟨{ base := 5, insertedAt := 0 }, 0, 1⟩]⟩,
+    lastMaint := 0, nIns := 20, nRem := 20 }
+
+theorem findingState_factor : findingState.factor ≠ 0 := by
+  show ((6 : Rat) / 5) ≠ 0
+  grind
+
+theorem findingState_mem :
+    (⟨{ base := 5, insertedAt := 0 }, 0, 1⟩ : Entry PV) ∈ findingState.q.pq := by
+  simp [findingState]
+
+example : findingState.factor ≠ 0 ∧
+    min (findingState.nIns + 1) findingState.nRem > max 10 findingState.len + findingState.lastMaint ∧
+    findingState.q.pq.countP (fun e => e.pri.cls != 0) = 1 ∧
+    ∃ e ∈ findingState.q.pq, e.pri.cls ≠ 0 ∧ e.pri.insertedAt < findingState.nIns + 1 - findingState.len :=
+  ⟨findingState_factor, by decide, by decide, _, findingState_mem, by decide, by decide⟩
+
+/-- … so for every lawful heap library and every draw the maintenance mark stays at 0 there, the
+    trigger stays armed, and the `append_pri(y, 0)` that follows in the load runs a recorded maintenance
+    round in which the straggler is a candidate (0 < 5) -/
+example (hl : H.Lawful (Entry.lt PV.lt)) (draw : Nat → Rat) (y : Nat) :
+    (updateCounters H findingState true draw).lastMaint = 0 ∧
+    ((updateCounters H findingState true draw).appendPri H y 0 draw).lastMaint = 20 := by
+  have h := lone_straggler_retried hl draw findingState findingState_factor (by decide) (by decide)
+    ⟨{ base := 5, insertedAt := 0 }, 0, 1⟩ findingState_mem (by decide) (by decide)
+  exact ⟨h.1.1, (h.2.2.2 y 0 (by decide)).1⟩
 
 end Asynkit.C19
